@@ -13,7 +13,12 @@
  *     4  certificate lists: tls_record_get_handshake_certificate into a TLS_MAX_CERTIFICATES_SIZE block (what every caller
  *        passes), tls13_record_get_handshake_certificate + tls13_process_certificate_list into the same size
  *     5  decryption with fixed keys: p1 & 3 = tls_cbc_decrypt, tls_record_decrypt, tls13_gcm_decrypt, tls13_record_decrypt;
- *        output block exactly as long as the ciphertext / record
+ *        output block exactly as long as the ciphertext / record.  p1 bit 2: the payload is the PLAINTEXT side and the harness
+ *        protects it first with the same fixed keys (what a peer that holds the traffic keys can send): CBC = raw SM4-CBC of the
+ *        bytes (IV = first block, so MAC and padding bytes are the fuzzer's; p1 bit 3: a correct MAC is inserted in front of
+ *        the last p2 & 63 bytes), GCM = tls13_gcm_encrypt(type = first byte, content = rest, padding = p2 & 127) with the right
+ *        nonce and AAD, so that the inner-plaintext scan (all-zero / no content type) and the padding logic behind the
+ *        authentication are reached
  *     6  helpers fed from handshake fields: tls_cipher_suites_select, tls_authorities_issued_certificate, tls_cert_types_accepted
  * FZ_SKIP: certs2048, chexts (more extension output than maxlen), oid33, aia, iap, cv13 (TLS 1.3 CertificateVerify shorter than its fields)
  */
@@ -345,7 +350,7 @@ static void cert_lists(const uint8_t *rec, size_t reclen)
 	(void)reclen;
 }
 
-static void decrypts(const uint8_t *rec, size_t reclen, int p1)
+static void decrypts(const uint8_t *rec_in, size_t reclen, int p1, int p2)
 {
 	SM3_HMAC_CTX hmac;
 	SM4_KEY dec;
@@ -353,10 +358,61 @@ static void decrypts(const uint8_t *rec, size_t reclen, int p1)
 	size_t outlen = 0;
 	int type = 0, r = 0;
 	uint8_t *out;
+	const uint8_t *rec = rec_in;
+	uint8_t *prot = NULL;
 
 	sm3_hmac_init(&hmac, FIXED_MAC, sizeof(FIXED_MAC));
 	sm4_set_decrypt_key(&dec, FIXED_KEY);
 	if (block_cipher_set_encrypt_key(&bk, BLOCK_CIPHER_sm4(), FIXED_KEY) != 1) abort();
+
+	if (p1 & 4) {
+		size_t n = reclen - 5, plen = 0;
+		if ((p1 & 3) < 2) {
+			/* [IV 16][plaintext blocks]: raw CBC under the fixed key; optionally a correct MAC in front of the tail */
+			SM4_KEY enc;
+			uint8_t *pt;
+			size_t tail = (size_t)(p2 & 63), blocks;
+			if (n < 32) return;
+			pt = fz_out(n + 48);
+			memcpy(pt, rec + 5, n);
+			plen = n;
+			if ((p1 & 8) && plen >= 16 + tail) {
+				/* content = pt[16 .. plen - tail), then MAC(seq || type ver len(content) || content), then the fuzzer's tail */
+				SM3_HMAC_CTX mc = hmac;
+				uint8_t hdr[5], mac[32];
+				size_t clen = plen - 16 - tail;
+				memcpy(hdr, rec, 3); hdr[3] = (uint8_t)(clen >> 8); hdr[4] = (uint8_t)clen;
+				sm3_hmac_update(&mc, FIXED_SEQ, 8);
+				sm3_hmac_update(&mc, hdr, 5);
+				sm3_hmac_update(&mc, pt + 16, clen);
+				sm3_hmac_finish(&mc, mac);
+				memmove(pt + 16 + clen + 32, pt + 16 + clen, tail);
+				memcpy(pt + 16 + clen, mac, 32);
+				plen += 32;
+			}
+			blocks = (plen - 16) / 16;
+			if (!blocks) { free(pt); return; }
+			prot = fz_out(5 + 16 + blocks * 16);
+			memcpy(prot, rec, 5);
+			memcpy(prot + 5, pt, 16);
+			sm4_set_encrypt_key(&enc, FIXED_KEY);
+			sm4_cbc_encrypt_blocks(&enc, pt, pt + 16, blocks, prot + 5 + 16);
+			reclen = 5 + 16 + blocks * 16;
+			free(pt);
+		} else {
+			size_t pad = (size_t)(p2 & 127), clen = n ? n - 1 : 0, encl = 0;
+			if (clen + 1 + pad + 16 > TLS_MAX_CIPHERTEXT_SIZE) return;
+			prot = fz_out(5 + clen + 1 + pad + 16);
+			if (tls13_gcm_encrypt(&bk, FIXED_IV, FIXED_SEQ, n ? rec[5] : 0, rec + 6, clen, pad, prot + 5, &encl) != 1 || encl != clen + 1 + pad + 16) {
+				free(prot);
+				return;
+			}
+			prot[0] = 23; prot[1] = 3; prot[2] = 3;
+			reclen = 5 + encl;
+		}
+		prot[3] = (uint8_t)((reclen - 5) >> 8); prot[4] = (uint8_t)(reclen - 5);
+		rec = prot;
+	}
 
 	switch (p1 & 3) {
 	case 0:
@@ -385,6 +441,7 @@ static void decrypts(const uint8_t *rec, size_t reclen, int p1)
 		break;
 	}
 	if (r == 1) FZ_ACCEPT();
+	free(prot);
 }
 
 static void helpers(const uint8_t *d, size_t n, int p1)
@@ -426,7 +483,7 @@ int LLVMFuzzerTestOneInput(const uint8_t *data, size_t size)
 		switch (sel) {
 		case 1: record_printers(rec, reclen, p1, p2); break;
 		case 4: cert_lists(rec, reclen); break;
-		case 5: decrypts(rec, reclen, p1); break;
+		case 5: decrypts(rec, reclen, p1, p2); break;
 		default: all_getters(rec); break;
 		}
 		break;
